@@ -28,6 +28,10 @@ def gen(rng, tier):
         # one kernel thread: deterministic, exact run-order validation against the model
         cases.append({"args": [1, gen_script(rng, 6, 7 if tier == "quick" else 12)],
                       "env": {"VR_SCHED": "rr", "VR_SEED": rng.randrange(1, 1 << 30), "VR_BUDGET": 300000}})
+    for nf in ([300] if tier == "quick" else [257, 300, 520]):
+        # more ready fibers than the initial deque capacity (256): size-triggered paths
+        script = "|".join(["y,y"] * nf)
+        cases.append({"args": [1, script], "env": {"VR_SCHED": "rr", "VR_SEED": 1, "VR_BUDGET": 3000000, "VR_MAXEV": 4000000}, "timeout": 300})
     for _ in range(n_cases(tier, 100, 1000)):
         # several kernel threads: stealing in play; starvation shows as STARVED / BUDGET
         cases.append({"args": [rng.choice([2, 3]), gen_script(rng, 6, 6)],
